@@ -31,6 +31,15 @@ def forMapE {α : Type} (l : List α) (σ : Env) (f : α → Env → Except BErr
       | .error e => .error e
       | .ok (r', σ'') => .ok (x' :: r', σ'')
 
+/-- a loop that changes its elements in place (through pointers) and cannot fail -/
+def forMap {α : Type} (l : List α) (σ : Env) (f : α → Env → α × Env) : List α × Env :=
+  match l with
+  | [] => ([], σ)
+  | x :: r =>
+    let (x', σ') := f x σ
+    let (r', σ'') := forMap r σ' f
+    (x' :: r', σ'')
+
 /-- `p.Validate()` through a pointer member (a nil pointer is not validated here; the reader / JSON loader refuse
 such containers earlier) -/
 def vOpt (m : Model) (k : Kind) (r : Option Vals) : Option BErr :=
